@@ -818,3 +818,41 @@ func hIsPrime(p int) bool {
 	}
 	return p > 1
 }
+
+// hReportClasses reports one violation key per class (the hint of each failure):
+// used when one defect shows up at many paths / shapes and a predicate on the
+// case names the defect better than a minimal vector. The lowest-numbered case
+// of each class is kept as the example.
+func hReportClasses(c *fw.Ctx, f *hFailures, render func([]int) string) {
+	f.mu.Lock()
+	type ex struct {
+		ord int
+		vec []int
+		sig string
+		n   int
+	}
+	classes := map[string]*ex{}
+	for _, fc := range f.fails {
+		x := classes[fc.hint]
+		if x == nil {
+			x = &ex{ord: fc.ord, vec: fc.vec, sig: fc.sig}
+			classes[fc.hint] = x
+		}
+		if fc.ord < x.ord {
+			x.ord, x.vec, x.sig = fc.ord, fc.vec, fc.sig
+		}
+		x.n++
+	}
+	f.mu.Unlock()
+	var ks []string
+	for k := range classes {
+		ks = append(ks, k)
+	}
+	sort.Strings(ks)
+	for _, k := range ks {
+		x := classes[k]
+		for i := 0; i < x.n; i++ {
+			c.Fail(k, fmt.Sprintf("%s; first case: %s: %s", k, render(x.vec), x.sig), map[string]any{"first_case": render(x.vec), "vec": x.vec, "disagreement": x.sig})
+		}
+	}
+}
